@@ -32,6 +32,7 @@ func init() {
 
 func runC25(c *Ctx) {
 	w := c.W
+	c25Extras(c)
 	c.alertSummary()
 	dec := w.Fn(fnDecrypt)
 	if dec == nil {
